@@ -155,4 +155,123 @@ def resolve (cands : List Cand) (args : List ETy) : Outcome :=
   if rs.any CandResult.isPanic then .panic
   else resolveRanked (rs.filterMap CandResult.ranked?)
 
+/-! ## Literal transcription with lazy `get_rank` (`resolveLazy`)
+
+`resolve` above ranks every cast of every viable candidate up front.  The Rust code calls `get_rank` lazily,
+inside the tournament loops and again in `count_by_rank`.  `resolveLazy` transcribes that evaluation order
+(including the `break` of the `against` loop); `Thm.C16.resolveLazy_eq_resolve` proves that both give the same
+outcome for pairwise distinct candidate ids, so every theorem about `resolve` is a theorem about the literal
+transcription. -/
+
+/-- the `zip` loop of `find_overload_casts`: conversions only -/
+def zipFind : List Param → List ETy → Except String (Option (List Conversion))
+  | p :: ps, a :: as =>
+    match find a p.ety with
+    | .error e => .error e
+    | .ok none => .ok none
+    | .ok (some c) =>
+      match zipFind ps as with
+      | .error e => .error e
+      | .ok none => .ok none
+      | .ok (some cs) => .ok (some (c :: cs))
+  | _, _ => .ok (some [])
+
+/-- first loop of `find_function_type`: the viable candidates with their casts; `.error` = panic in `find` -/
+def viableCasts (args : List ETy) : List Cand → Except String (List (Nat × List Conversion))
+  | [] => .ok []
+  | c :: cs =>
+    if args.length ≤ c.params.length ∧ c.nonDefault ≤ args.length then
+      match zipFind c.params args with
+      | .error e => .error e
+      | .ok r =>
+        match viableCasts args cs with
+        | .error e => .error e
+        | .ok rest => .ok (match r with | some x => (c.id, x) :: rest | none => rest)
+    else viableCasts args cs
+
+/-- the inner `zip` loop of the tournament with `get_rank` evaluated per pair; no early exit -/
+def notWorseL : List Conversion → List Conversion → Except String Bool
+  | c :: cs, a :: as =>
+    match getRank c with
+    | .error e => .error e
+    | .ok cr =>
+      match getRank a with
+      | .error e => .error e
+      | .ok ar =>
+        match notWorseL cs as with
+        | .error e => .error e
+        | .ok rest => .ok (!isWorse cr.num ar.num && rest)
+  | _, _ => .ok true
+
+/-- the `against` loop: `continue` on the candidate itself, `break` at the first candidate it is worse than -/
+def winningL (c : Nat × List Conversion) : List (Nat × List Conversion) → Except String Bool
+  | [] => .ok true
+  | a :: as =>
+    if a.1 == c.1 then winningL c as else
+    match notWorseL c.2 a.2 with
+    | .error e => .error e
+    | .ok false => .ok false
+    | .ok true => winningL c as
+
+/-- the `candidate` loop -/
+def winnersL (all : List (Nat × List Conversion)) :
+    List (Nat × List Conversion) → Except String (List (Nat × List Conversion))
+  | [] => .ok []
+  | c :: cs =>
+    match winningL c all with
+    | .error e => .error e
+    | .ok w =>
+      match winnersL all cs with
+      | .error e => .error e
+      | .ok rest => .ok (if w then c :: rest else rest)
+
+/-- `get_rank` of every cast of one winner (`count_by_rank`) -/
+def ranksOf : List Conversion → Except String (List Rank)
+  | [] => .ok []
+  | c :: cs =>
+    match ranksOf cs with
+    | .error e => .error e
+    | .ok rs =>
+      match getRank c with
+      | .error e => .error e
+      | .ok r => .ok (r :: rs)
+
+def rankWinners : List (Nat × List Conversion) → Except String (List (Nat × List Rank))
+  | [] => .ok []
+  | c :: cs =>
+    match ranksOf c.2 with
+    | .error e => .error e
+    | .ok rs =>
+      match rankWinners cs with
+      | .error e => .error e
+      | .ok rest => .ok ((c.1, rs) :: rest)
+
+/-- `find_function_type`, evaluation order as in the source -/
+def resolveLazy (cands : List Cand) (args : List ETy) : Outcome :=
+  match viableCasts args cands with
+  | .error _ => .panic
+  | .ok casts =>
+    match winnersL casts casts with
+    | .error _ => .panic
+    | .ok w =>
+      match rankWinners w with
+      | .error _ => .panic
+      | .ok wr =>
+        match finals wr with
+        | [] => .unmatched
+        | [c] => .selected c.1
+        | cs => .ambiguous (cs.map (·.1))
+
+/-- ascending insertion sort, used to print an ambiguity independently of the declaration order -/
+def insertSorted (x : Nat) : List Nat → List Nat
+  | [] => [x]
+  | y :: ys => if x ≤ y then x :: y :: ys else y :: insertSorted x ys
+
+def sortIds (l : List Nat) : List Nat := l.foldr insertSorted []
+
+/-- the verdict as the harness observes it: the ambiguous candidates as a sorted list -/
+def Outcome.normalize : Outcome → Outcome
+  | .ambiguous ids => .ambiguous (sortIds ids)
+  | o => o
+
 end RsslVerif.Model.Overload
